@@ -38,7 +38,7 @@ def loopFor (s : Site) : Option Translation :=
 def loopSupports (d : Discharge) (t : Option Translation) : Bool :=
   match loopUsesFor d, t with
   | none, _ => true
-  | some us, some (.loop l) => l.wellFormed && l.uses.map (·.2) == us
+  | some us, some (.loop l _) => l.wellFormed && l.uses.map (·.2) == us
   | some _, _ => false
 
 set_option maxRecDepth 100000 in
@@ -62,16 +62,16 @@ theorem C03_gen_loops_translated :
 /-- Hence every such site's loop is a permutation-invariant consumer — what `Prog.Safe` demands of an `iterSet` node. -/
 theorem C03_translated_loops_invariant (e : Site × Discharge) (he : e ∈ table) (hk : e.1.kind = .setIter)
     (hd : (loopUsesFor e.2).isSome = true) :
-    ∃ l, loopFor e.1 = some (.loop l) ∧ ∀ (P : Prims) (keys : List Nat), Invariant (l.consumer P keys) := by
+    ∃ l n, loopFor e.1 = some (.loop l n) ∧ ∀ (P : Prims) (keys : List Nat), Invariant (l.consumer P keys) := by
   have h := List.all_eq_true.mp C03_gen_loops_order_free e he
   simp only [hk, bne_self_eq_false, Bool.false_or] at h
   unfold loopSupports at h
   obtain ⟨us, hus⟩ := Option.isSome_iff_exists.mp hd
   rw [hus] at h
   match ht : loopFor e.1, h with
-  | some (.loop l), h =>
+  | some (.loop l n), h =>
     simp only [Bool.and_eq_true] at h
-    exact ⟨l, rfl, fun P keys => wellFormed_invariant P keys l h.1⟩
+    exact ⟨l, n, rfl, fun P keys => wellFormed_invariant P keys l h.1⟩
 
 /-! ### each clause of `wellFormed` is needed -/
 
@@ -112,7 +112,7 @@ theorem C03_loop_foreign_key_counterexample :
 theorem C03_loop_undeclared_accumulator : (Loop.mk (.emit "acc" .elem .elem) []).wellFormed = false := by decide
 
 /-- non-vacuity: the four translated loops of the current tree ARE well-formed, and their consumers tell sets apart -/
-example : (loops.filterMap fun r => match r.2.2.2.2 with | .loop l => some l.wellFormed | _ => none) =
+example : (loops.filterMap fun r => match r.2.2.2.2 with | .loop l _ => some l.wellFormed | _ => none) =
     [true, true, true, false, true, false] := by decide
 
 /-- **Gen obligation: a result that carries a set's iteration order is consumed order-free.** `SoftwareManager.get_open_ports` returns
@@ -130,7 +130,7 @@ theorem C03_gen_ordered_result_consumers :
 
 /-! ### the translated `_set_software_listen_on_ports` loop IS the consumer `listenPorts` the component rig validates -/
 
-/-- the committed translation (what the source has today; `C03_gen_listen_loop` checks the regenerated one against it) -/
+/-- the statement-by-statement translation of the source as it is today (not pinned: a rewrite with the same meaning may change it) -/
 def listenLoop : Loop :=
   ⟨.seq (.assign "port_id" .elem) (.seq (.assign "port" (.const 0))
     (.seq (.ite (.app2 "call:isinstance" (.var "port_id") (.app1 "free:int" (.const 0))) (.assign "port" (.var "port_id"))
@@ -139,11 +139,44 @@ def listenLoop : Loop :=
           (.ite (.var "port") (.emit "listen_on_ports" (.var "port") (.var "port")) .skip))),
    [("listen_on_ports", .asSet)]⟩
 
+/-- its PATH NORMAL FORM (decision tree over conditions on the element, emits at the leaves): what the extractor's symbolic execution
+makes of ANY statement shape with this meaning - guard clause (`if not port: continue`), conditional expression, `else: port = None` -/
+def listenNormal : Loop :=
+  ⟨.ite (.app2 "call:isinstance" .elem (.app1 "free:int" (.const 0)))
+      (.ite .elem (.emit "listen_on_ports" .elem .elem) .skip)
+      (.ite (.app2 "call:isinstance" .elem (.app1 "free:str" (.const 0)))
+        (.ite (.app2 "getitem" (.app1 "free:PORT_LOOKUP" (.const 0)) .elem)
+          (.emit "listen_on_ports" (.app2 "getitem" (.app1 "free:PORT_LOOKUP" (.const 0)) .elem)
+            (.app2 "getitem" (.app1 "free:PORT_LOOKUP" (.const 0)) .elem)) .skip) .skip),
+   [("listen_on_ports", .asSet)]⟩
+
+def normalFor (s : Site) : Option Loop :=
+  match loopFor s with
+  | some (.loop _ n) => some n
+  | _ => none
+
+def listenSite : Site :=
+  ⟨"game/game.py", "PrimaiteGame.from_config._set_software_listen_on_ports", .setIter,
+    "for <- set(software_cfg.get('options', {}).get('listen_on_ports', []))", 0⟩
+
 set_option maxRecDepth 100000 in
-/-- Gen obligation: the loop regenerated from game.py is that translation. -/
-theorem C03_gen_listen_loop :
-    loopFor ⟨"game/game.py", "PrimaiteGame.from_config._set_software_listen_on_ports", .setIter,
-      "for <- set(software_cfg.get('options', {}).get('listen_on_ports', []))", 0⟩ = some (.loop listenLoop) := by decide
+/-- **Gen obligation: what the loop of `_set_software_listen_on_ports` computes.** The normal form of the loop regenerated from game.py is
+`listenNormal`: ints pass, names go through `PORT_LOOKUP`, a FALSY result (0, `None`) is dropped, everything else is dropped. A rewrite of
+the statements with the same meaning keeps this; `if port is not None:`, another table, another test order, a second emit break it. -/
+theorem C03_gen_listen_loop_normal_form : normalFor listenSite = some listenNormal := by decide
+
+/-- sample interpretations of the pure functions, for the validation below -/
+def gridPrims (m : Nat) : Prims := ⟨fun f a => (f.length + a) % m, fun f a b => (f.length * 7 + a + 2 * b) % m⟩
+
+set_option maxRecDepth 100000 in
+/-- VALIDATION (testing, not proof) of the extractor's symbolic execution on the current tree: for every translated loop, the raw
+translation and its normal form emit the same values on a grid of 3 interpretations × 6 elements. (That two loops with the same normal
+form are equivalent is the extractor's claim; the theorems below are about the normal form and, separately, about today's raw shape.) -/
+theorem C03_gen_normal_forms_agree_on_grid :
+    (loops.all fun r => match r.2.2.2.2 with
+      | .loop l n => [2, 3, 5].all fun m => (List.range 6).all fun x =>
+          iterEmits (gridPrims m) l.body x == iterEmits (gridPrims m) n.body x
+      | .opaque _ => true) = true := by decide
 
 /-- what one entry becomes: ints pass, names go through `PORT_LOOKUP`, anything else and every falsy result is dropped -/
 def listenLookup (P : Prims) (x : Nat) : Option Nat :=
@@ -187,6 +220,42 @@ theorem C03_listen_loop_is_listenPorts (P : Prims) (keys : List Nat) (l : List N
   simp only [observe, listenPorts]
   have h2 := map_snd_flatMap_lookup P l
   simp only [listenLoop] at h2
+  rw [h2]
+
+theorem listenNormal_iter (P : Prims) (x : Nat) :
+    accOf "listen_on_ports" (iterEmits P listenNormal.body x) = match listenLookup P x with
+      | some p => [(p, p)]
+      | none => [] := by
+  unfold listenLookup
+  by_cases h1 : P.f2 "call:isinstance" x (P.f1 "free:int" 0) ≠ 0
+  · by_cases hx : x ≠ 0
+    · simp [iterEmits, listenNormal, Stmt.exec, Expr.eval, accOf, h1, hx]
+    · simp [iterEmits, listenNormal, Stmt.exec, Expr.eval, accOf, h1, hx]
+  · by_cases h2 : P.f2 "call:isinstance" x (P.f1 "free:str" 0) ≠ 0
+    · by_cases hp : P.f2 "getitem" (P.f1 "free:PORT_LOOKUP" 0) x ≠ 0
+      · simp [iterEmits, listenNormal, Stmt.exec, Expr.eval, accOf, h1, h2, hp]
+      · simp [iterEmits, listenNormal, Stmt.exec, Expr.eval, accOf, h1, h2, hp]
+    · simp [iterEmits, listenNormal, Stmt.exec, Expr.eval, accOf, h1, h2]
+
+theorem map_snd_flatMap_lookup_normal (P : Prims) : ∀ l : List Nat,
+    ((l.flatMap fun x => accOf "listen_on_ports" (iterEmits P listenNormal.body x)).map (·.2)) = l.filterMap (listenLookup P)
+  | [] => rfl
+  | a :: t => by
+    rw [List.flatMap_cons, List.map_append, map_snd_flatMap_lookup_normal P t, listenNormal_iter, List.filterMap_cons]
+    cases listenLookup P a <;> simp
+
+/-- **The pinned normal form computes exactly the modelled consumer** `listenPorts` — the one the component rig compares with the real
+`from_config` on generated lists of names / ints / duplicates / 0, and the cross-process probe on lists of names. -/
+theorem C03_listen_normal_is_listenPorts (P : Prims) (keys : List Nat) (l : List Nat) :
+    listenNormal.consumer P keys l = listenPorts (listenLookup P) l := by
+  have hr : listenNormal.body.readsOk [] = true := by decide
+  simp only [Loop.consumer, listenNormal, List.flatMap_cons, List.flatMap_nil, List.append_nil]
+  have := runLoop_eq_flatMap P listenNormal.body hr l []
+  simp only [listenNormal] at this
+  rw [this, accOf_flatMap]
+  simp only [observe, listenPorts]
+  have h2 := map_snd_flatMap_lookup_normal P l
+  simp only [listenNormal] at h2
   rw [h2]
 
 end Primaite.Noninterf
